@@ -48,6 +48,10 @@ def run(rep, tier, seed):
     groups = C.groups_for(tier)
     if tier == "quick":
         groups = [g for g in groups if not g.startswith("Bundle")] + ["Bundle:SO2,SE3,R3"]
+    else:
+        # bundles of several 3D groups multiply the elements' branch structures beyond the path cap
+        groups = [g for g in groups if not g.startswith("Bundle")] + ["Bundle:SO2,SE3,R3", "Bundle:SE2,SO3,R3", "Bundle:SO3,SO3",
+                                                                       "Bundle:SE2,SE2,SE2,SE2", "Bundle:SGal3,R3,SO2", "Bundle:SE_2_3"]
     errs = HARNESS.build(groups, native=False)
     rep.trust("hash-consing of the tracer: equal node ids <=> same expression of the inputs (so DAG identity holds for all inputs)",
               "A-RAND: rand() is the only nondeterministic primitive and is reachable only from Random()/setRandom()",
